@@ -26,13 +26,13 @@
 (* SecondCancel = FALSE gives the code before fix e60c335a (expected        *)
 (* violation of NoOrphanInstance, CmdMgrAsCoded.cfg).                       *)
 (***************************************************************************)
-EXTENDS Naturals, Sequences, FiniteSets, TLC
+EXTENDS Integers, Sequences, FiniteSets, TLC
 
 CONSTANTS MaxTicks, MaxReq, SecondCancel
 
-Uod == {"Short", "Long", "Forever", "OvA", "OvB"}
+Uod == {"Short", "Long", "Forever", "OvA", "OvB", "Loop1"}      \* Loop1 never completes and writes its iteration count to Out1
 Ctl == {"Start", "Stop", "Restart", "Pause", "Unpause", "Hold", "Unhold"}
-Dur(n) == CASE n = "Short" -> 1 [] n = "Long" -> 4 [] n = "Forever" -> 0 [] OTHER -> 5     \* 0: never completes by itself
+Dur(n) == CASE n = "Short" -> 1 [] n = "Long" -> 4 [] n \in {"Forever", "Loop1"} -> 0 [] OTHER -> 5     \* 0: never completes by itself
 Overlap(a, b) == {a, b} \subseteq {"OvA", "OvB"}          \* (also true for a = b, as in the code's overlap lists)
 
 NoInst == [rid |-> 0, k |-> 0, iter |-> 0]
@@ -44,6 +44,9 @@ Fresh == [execL |-> <<>>,                          \* the current manager's cmd_
           stop |-> NoCmd, restart |-> NoCmd,        \* the running Stop / Restart command (registry), its request and generator phase
           pend |-> 0,                               \* restart_request_pending of the current manager (a request id)
           started |-> FALSE, stopping |-> FALSE, paused |-> FALSE, holding |-> FALSE, state |-> "Stopped",
+          out |-> 0,                                \* the output tag Out1 (safe value 0; the engine starts with the safe values applied)
+          prev |-> -1,                              \* Engine._prev_state: the output captured by Pause, -1 = none
+          hw |-> 0,                                 \* what the hardware register of Out1 holds (last write)
           nextRid |-> 1,
           hooks |-> <<>>,                           \* init / exec / finalize calls of the last tick, in order: <<hook, name, k>>
           acc |-> <<>>,                             \* which of the requests before the last tick were accepted
@@ -101,7 +104,8 @@ ExecUod(a, L, c) ==
                       EXCEPT !.made[c.name] = @ + 1, !.inst[c.name] = [rid |-> c.rid, k |-> a2.made[c.name] + 1, iter |-> 0]]
               ELSE a2
         k == a3.inst[c.name].k
-        a4 == [Hook(a3, "exec", c.name, k) EXCEPT !.inst[c.name].iter = @ + 1]
+        a4 == [Hook(a3, "exec", c.name, k) EXCEPT !.inst[c.name].iter = @ + 1,
+                                                  !.out = IF c.name = "Loop1" THEN a3.inst[c.name].iter + 1 ELSE @]
     IN IF Dur(c.name) # 0 /\ a4.inst[c.name].iter >= Dur(c.name)
        THEN [Hook(a4, "finalize", c.name, k) EXCEPT !.inst[c.name] = NoInst, !.done = @ \cup {c.rid}]
        ELSE a4
@@ -109,8 +113,9 @@ ExecUod(a, L, c) ==
 (* the run ends: second half of Stop and of Restart; the command manager is replaced *)
 EndRun(a, L, src, newL) ==
     LET b == IF SecondCancel THEN CancelAllFrom(a, L, 1, src) ELSE a IN
+    \* _apply_safe_state and write_process_image while the run still counts as started
     [b EXCEPT !.started = FALSE, !.stopping = FALSE, !.paused = FALSE, !.holding = FALSE, !.state = "Stopped",
-              !.swapped = TRUE, !.newL = newL, !.ended = TRUE]
+              !.out = 0, !.hw = 0, !.swapped = TRUE, !.newL = newL, !.ended = TRUE]
 
 (* _execute_internal_command(c) *)
 ExecCtl(a, L, c) ==
@@ -118,8 +123,12 @@ ExecCtl(a, L, c) ==
             IF a.started THEN [a EXCEPT !.done = @ \cup {c.rid}]                            \* fails
             ELSE [a EXCEPT !.started = TRUE, !.paused = FALSE, !.holding = FALSE, !.state = "Running", !.done = @ \cup {c.rid}]
       \* the four (untimed) run-state commands complete in the tick in which they execute; none of them looks at `started`
-      [] c.name = "Pause" -> [a EXCEPT !.paused = TRUE, !.state = "Paused", !.done = @ \cup {c.rid}]
-      [] c.name = "Unpause" -> [a EXCEPT !.paused = FALSE, !.state = IF a.holding THEN "Holding" ELSE "Running", !.done = @ \cup {c.rid}]
+      \* Pause puts the outputs to their safe values and keeps what they were (unless a pause already holds a capture);
+      \* Unpause puts the captured values back
+      [] c.name = "Pause" -> [a EXCEPT !.paused = TRUE, !.state = "Paused", !.out = 0,
+                                       !.prev = IF ~a.paused \/ a.prev = -1 THEN a.out ELSE @, !.done = @ \cup {c.rid}]
+      [] c.name = "Unpause" -> [a EXCEPT !.paused = FALSE, !.state = IF a.holding THEN "Holding" ELSE "Running",
+                                         !.out = IF a.prev # -1 THEN a.prev ELSE @, !.prev = -1, !.done = @ \cup {c.rid}]
       [] c.name = "Hold" -> [a EXCEPT !.holding = TRUE, !.state = IF a.paused THEN @ ELSE "Holding", !.done = @ \cup {c.rid}]
       [] c.name = "Unhold" -> [a EXCEPT !.holding = FALSE, !.state = IF a.paused THEN @ ELSE "Running", !.done = @ \cup {c.rid}]
       [] c.name = "Stop" ->
@@ -162,12 +171,17 @@ TickTo(st, reqs) ==
     LET s0 == Accept([st EXCEPT !.acc = <<>>, !.hooks = <<>>, !.ended = FALSE], reqs, 1)
         L == s0.execL
         a0 == [inst |-> s0.inst, made |-> s0.made, stop |-> s0.stop, restart |-> s0.restart, pend |-> s0.pend, started |-> s0.started,
-               stopping |-> s0.stopping, paused |-> s0.paused, holding |-> s0.holding, state |-> s0.state, hooks |-> <<>>, done |-> {}, swapped |-> FALSE, newL |-> <<>>, ended |-> FALSE]
+               stopping |-> s0.stopping, paused |-> s0.paused, holding |-> s0.holding, state |-> s0.state,
+               out |-> s0.out, prev |-> s0.prev, hw |-> s0.hw, hooks |-> <<>>, done |-> {}, swapped |-> FALSE, newL |-> <<>>, ended |-> FALSE]
         a == Loop(a0, L, 1)
     IN [s0 EXCEPT !.execL = IF a.swapped THEN a.newL ELSE Keep(L, a.done),
                   !.inst = a.inst, !.made = a.made, !.stop = a.stop, !.restart = a.restart,
                   !.pend = IF a.swapped THEN 0 ELSE a.pend,        \* a new manager starts without a pending restart of its own
-                  !.started = a.started, !.stopping = a.stopping, !.paused = a.paused, !.holding = a.holding, !.state = a.state, !.hooks = a.hooks, !.ended = a.ended]
+                  !.started = a.started, !.stopping = a.stopping, !.paused = a.paused, !.holding = a.holding, !.state = a.state,
+                  !.out = a.out, !.prev = a.prev,
+                  \* write_process_image at the end of the tick, only while a run is active
+                  !.hw = IF a.started THEN a.out ELSE a.hw,
+                  !.hooks = a.hooks, !.ended = a.ended]
 
 (* ---- design check ------------------------------------------------------------------------------------------------ *)
 VARIABLES st, tickNo
@@ -198,5 +212,12 @@ HookOrder ==
 StoppedIffNoRun == (st.state = "Stopped") = ~st.started
 StateMatchesFlags == st.started => st.state \in {IF st.paused THEN "Paused" ELSE IF st.holding THEN "Holding" ELSE "Running", "Restarting"}
 FlagsOnlyInARun == ~st.started => ~st.paused /\ ~st.holding
+(* C08 *)
+SafeWhenNoRun == ~st.started => st.hw = 0
+\* NOT an invariant of the code (recorded finding C08.safe-while-paused@command-keeps-writing): commands go on executing while
+\* the run is paused, and Loop1 overwrites the safe value. Checked in CmdMgrAsCoded.cfg, where it must be violated.
+SafeWhilePaused == st.started /\ st.paused => st.hw = 0
+(* C09 *)
+CaptureOnlyWhilePaused == st.prev # -1 => st.paused \/ ~st.started
 ControlCommandsEnd == st.stop.rid # 0 \/ st.restart.rid # 0 => st.started \/ st.restart.phase = 2
 =============================================================================
